@@ -926,11 +926,29 @@ Definition unquoted_value (u rest : list Z) : Prop :=
 Definition quoted_value (val : list Z) : Prop :=
   exists q body, val = q :: body ++ [q] /\ (q = 34 \/ q = 39) /\ Forall (fun c => c <> q) body.
 
+(* a quoted value that the end of input cuts: the opening quote and bytes other than the quote *)
+Definition cut_quoted_value (val : list Z) : Prop :=
+  exists q body, val = q :: body /\ (q = 34 \/ q = 39) /\ Forall (fun c => c <> q) body.
+
+Lemma attrq_cut_loop z q body has : reads z body -> Forall (fun c => c <> q) body -> q <> 0 ->
+  loop (fuel_of z) (attrq_body no_tmpl q) (z, has) = Ok (mv z (len body), has).
+Proof.
+  intros Hr Hb Hq. pose proof (len_nonneg body).
+  apply (loop_scan2 _ z has (len body)); [lia| | |eapply fuel_of_enough; [exact Hr|lia]].
+  - intros i Hi. destruct (peekz_in body i Hi) as (c & Hc & Hin). rewrite Forall_forall in Hb. specialize (Hb c Hin).
+    unfold attrq_body. rewrite pkr_mv0, (reads_pkr z _ i c Hr Hc). cbn [rbind]. rewrite tmpl_at_none. cbn [rbind].
+    replace (c =? q) with false by (symmetry; apply Z.eqb_neq; exact Hb).
+    rewrite (reads_eof0_in z _ i c Hr Hc). rewrite mv_mv. reflexivity.
+  - unfold attrq_body. rewrite pkr_mv0. destruct (reads_end z body Hr) as [Hp _]. unfold pkr. rewrite Hp. cbn [opt_res rbind].
+    rewrite tmpl_at_none. cbn [rbind]. replace (0 =? q) with false by (symmetry; apply Z.eqb_neq; lia).
+    rewrite (reads_eof0_end z body Hr). reflexivity.
+Qed.
+
 Lemma next_attr_valued d l pre ws1 key ws2 ws3 val rest :
   at_input d l pre (ws1 ++ key ++ ws2 ++ 61 :: ws3 ++ val ++ rest) -> intag l = true ->
   Forall (fun c => is_ws c = true) ws1 -> key <> [] -> Forall keychar key ->
   Forall (fun c => is_ws c = true) ws2 -> Forall (fun c => is_ws c = true) ws3 ->
-  (unquoted_value val rest \/ quoted_value val) ->
+  (unquoted_value val rest \/ quoted_value val \/ (cut_quoted_value val /\ rest = [])) ->
   let n := len ws1 + len key + len ws2 + 1 + len ws3 + len val in
   exists l', next no_tmpl l = Ok (AttributeT, Some (mkSl (len pre) n), l') /\
     ltext l' = Some (mkSl (len pre + len ws1) (len key)) /\
@@ -955,9 +973,10 @@ Proof.
   rewrite (reads_pkr zz2 _ 0 61 Hr3) by apply peekz_cons_0. cbn [rbind]. change (61 =? 61) with true. cbn [rbind].
   (* the first byte of the value *)
   assert (Hv0 : exists c1 vt, val = c1 :: vt /\ is_ws c1 = false).
-  { destruct Hval as [((c & t & -> & _) & Hu & _)|(q & body & -> & Hq & _)].
+  { destruct Hval as [((c & t & -> & _) & Hu & _)|[(q & body & -> & Hq & _)|((q & body & -> & Hq & _) & _)]].
     - exists c, t. split; [reflexivity|]. inversion Hu as [|? ? Hc _]. apply Hc.
-    - exists q, (body ++ [q]). split; [reflexivity|]. destruct Hq as [-> | -> ]; reflexivity. }
+    - exists q, (body ++ [q]). split; [reflexivity|]. destruct Hq as [-> | -> ]; reflexivity.
+    - exists q, body. split; [reflexivity|]. destruct Hq as [-> | -> ]; reflexivity. }
   destruct Hv0 as (c1 & vt & Ev & Hc1ws).
   pose proof (reads_mv _ _ 1 Hr3 ltac:(unfold r2; rewrite len_cons; pose proof (len_nonneg (ws3 ++ val ++ rest)); lia)) as Hr4.
   change (skipz 1 r2) with (ws3 ++ val ++ rest) in Hr4.
@@ -971,7 +990,7 @@ Proof.
   (* the value loop *)
   assert (Hvloop : (if (c1 =? 34) || (c1 =? 39) then loop (fuel_of z3) (attrq_body no_tmpl c1) (mv z3 1, false)
                     else loop (fuel_of z3) (with_tmpl_lx no_tmpl attru_body) (z3, false)) = Ok (mv z3 (len val), false)).
-  { destruct Hval as [((c & t & Eu & Hc34 & Hc39) & Hu & Hrest)|(q & body & Eq & Hq & Hbody)].
+  { destruct Hval as [((c & t & Eu & Hc34 & Hc39) & Hu & Hrest)|[(q & body & Eq & Hq & Hbody)|((q & body & Eq & Hq & Hbody) & Hrest)]].
     - rewrite Eu in Ev. injection Ev as <- <-.
       replace ((c =? 34) || (c =? 39)) with false by (symmetry; apply orb_false_iff; split; apply Z.eqb_neq; assumption).
       unfold with_tmpl_lx; rewrite loop_with_no_tmpl; rewrite (attru_loop_run z3 val rest Hr5 Hu Hrest). reflexivity.
@@ -981,7 +1000,13 @@ Proof.
       rewrite Eq in Hr6. change (skipz 1 ((q :: body ++ [q]) ++ rest)) with ((body ++ [q]) ++ rest) in Hr6.
       rewrite <- app_assoc in Hr6. cbn [app] in Hr6.
       rewrite (loop_fuel_mono _ _ (fuel_of z3) _ _ (attrq_loop_run _ q body rest false Hr6 Hbody)) by (apply fuel_of_mv_le; lia).
-      rewrite mv_mv, Eq, len_cons, len_app. change (len [q]) with 1. first [reflexivity | do 3 f_equal; lia | do 2 f_equal; lia]. }
+      rewrite mv_mv, Eq, len_cons, len_app. change (len [q]) with 1. first [reflexivity | do 3 f_equal; lia | do 2 f_equal; lia].
+    - rewrite Eq in Ev. injection Ev as <- <-.
+      replace ((q =? 34) || (q =? 39)) with true by (symmetry; destruct Hq as [-> | -> ]; reflexivity).
+      pose proof (reads_mv _ _ 1 Hr5 ltac:(rewrite Eq; cbn [app]; rewrite len_cons; pose proof (len_nonneg (body ++ rest)); lia)) as Hr6.
+      rewrite Eq in Hr6. change (skipz 1 ((q :: body) ++ rest)) with (body ++ rest) in Hr6. rewrite Hrest, app_nil_r in Hr6.
+      rewrite (loop_fuel_mono _ _ (fuel_of z3) _ _ (attrq_cut_loop _ q body false Hr6 Hbody ltac:(destruct Hq; lia))) by (apply fuel_of_mv_le; lia).
+      rewrite mv_mv, Eq, len_cons. first [reflexivity | do 3 f_equal; lia | do 2 f_equal; lia]. }
   rewrite Hvloop. cbn [rbind fst snd].
   destruct Hr5 as [Hw3 Hrem3].
   destruct (rem_mv _ (len val) Hw3) as [_ Hw4]; [rewrite Hrem3, len_app; lia|].
